@@ -219,7 +219,15 @@ pub fn c02_large(alg: Algorithm, inp: &LargeInput) -> Result<(bool, u64, u64), S
     }
     let (_, pinf) = cap32_deadline(alg, old, new, u64::MAX)?;
     let mut tr = ops.len() as u64 + sub.len() as u64;
-    for k in expiry_points(pinf) {
+    // inputs whose single diff is expensive ((N+M)*(D+1) above 2*10^7, or an LCS side beyond
+    // 2^15) get three expiry points instead of eight
+    let heavy = (n + m) as u64 * (st.deleted + st.inserted + 1) as u64 > 20_000_000
+        || (alg == Algorithm::Lcs && n.max(m) > 32_768);
+    let mut points = expiry_points(pinf);
+    if heavy {
+        points.retain(|&k| k == 0 || k == pinf / 2 || k + 1 == pinf);
+    }
+    for k in points {
         let (o, _) = cap32_deadline(alg, old, new, k)?;
         chk(&o, &format!("capture_diff_deadline, clock expiring at probe {} of {}", k, pinf))?;
         tr += o.len() as u64;
@@ -548,7 +556,7 @@ pub fn c02_run(cfg: &RunCfg) -> CheckReport {
     if !rep.has_violation() {
         // size-triggered paths: LCS beyond 2^20 / 2^24 table cells, more than 2^16 distinct items
         let mut extra: Vec<(Algorithm, LargeInput)> = vec![];
-        for i in large::lcs_big() {
+        for i in large::lcs_big_for(cfg.tier, true) {
             // (the biggest tables get the light variant below)
             if large::lcs_cells(&i) <= 20_000_000 {
                 extra.push((Algorithm::Lcs, i));
@@ -575,7 +583,7 @@ pub fn c02_run(cfg: &RunCfg) -> CheckReport {
     }
     if !rep.has_violation() {
         // the biggest LCS tables: capture_diff only (valid script, applies, ratio)
-        let big: Vec<LargeInput> = large::lcs_big().into_iter().filter(|i| large::lcs_cells(i) > 20_000_000).collect();
+        let big: Vec<LargeInput> = large::lcs_big_for(cfg.tier, true).into_iter().filter(|i| large::lcs_cells(i) > 20_000_000).collect();
         let ex = explore(cfg, big.len(), |shard, acc| {
             let inp = &big[shard];
             let (old, new) = (&inp.old[..], &inp.new[..]);
@@ -904,7 +912,7 @@ pub fn c03_run(cfg: &RunCfg) -> CheckReport {
         large::run_part(cfg, &mut rep, &MIN_ALGS, &|a| if a == Algorithm::Lcs { 300 } else { usize::MAX }, c03_large);
     }
     if !rep.has_violation() {
-        let big = large::lcs_big();
+        let big = large::lcs_big_for(cfg.tier, true);
         let ex = explore(cfg, big.len(), |shard, acc| {
             let inp = &big[shard];
             match c03_large(Algorithm::Lcs, inp) {
@@ -1100,7 +1108,7 @@ pub fn c11_run(cfg: &RunCfg) -> CheckReport {
         return rep;
     }
     // LCS on the size-trigger inputs (tables beyond 2^20 .. 2^27 cells, sides beyond 2^16)
-    let big = large::lcs_big();
+    let big = large::lcs_big_for(cfg.tier, true);
     let ex = explore(cfg, big.len(), |shard, acc| {
         let inp = &big[shard];
         match c11_large(Algorithm::Lcs, inp) {
